@@ -1,5 +1,6 @@
 import FrappyProofs.Lemmas.Control
 import FrappyProofs.Lemmas.ExtParams
+import FrappyProofs.Lemmas.StructErrors
 import FrappyModel.Generated.C18
 /-
 C18 — property theorems (nothing but property theorems and their non-vacuity examples).
@@ -22,126 +23,154 @@ theorem allSingle_of_named (n nout : Nat) (outOf : Nat → Nat) (cb : Nat → Op
 theorem untouched_refl (n nout : Nat) (outOf : Nat → Nat) (o : Nat) (cb : Nat → Option Nat) (act : Nat → Bool) :
     OthersUntouched n nout outOf o cb cb act act := ⟨fun _ _ _ => rfl, fun _ _ _ => rfl⟩
 
-theorem activate_ok (cfg : Cfg) (k : Nat) (s : St) (h : AllSingle cfg.n cfg.nout cfg.outOf s.cb s.act) :
-    AllSingle cfg.n cfg.nout cfg.outOf (activate cfg k s).cb (activate cfg k s).act ∧
-    TakenOver cfg.n cfg.outOf (.byInput k) (activate cfg k s).cb (activate cfg k s).act ∧
-    OthersUntouched cfg.n cfg.nout cfg.outOf (cfg.outOf k) s.cb (activate cfg k s).cb s.act (activate cfg k s).act := by
-  refine ⟨allSingle_of_named _ _ _ _ _ ?_, ⟨?_, ?_⟩, ⟨?_, ?_⟩⟩
-  · intro o ho i hi hio hai
-    rw [activate_act] at hai
-    rw [activate_cb]
-    by_cases hik : i = k
-    · subst hik; simp [hio]
-    · simp only [hik, if_false] at hai
-      by_cases hsame : cfg.outOf i = cfg.outOf k
-      · simp [hi, hsame] at hai
-      · have hne : ¬ o = cfg.outOf k := by rw [← hio]; exact hsame
-        simp only [hne, if_false]
-        have hsa : s.act i = true := by simpa [hsame] using hai
-        exact (h o ho).2 i hi hio hsa
-  · rw [activate_cb]; simp
-  · intro i hi hio
-    rw [activate_act]
-    by_cases hik : i = k
-    · simp [hik]
-    · simp [hik, hi, hio]
-  · intro o' _ hne
-    rw [activate_cb]; simp [hne]
-  · intro i _ hne
-    rw [activate_act]
-    have hik : ¬ i = k := by intro e; rw [e] at hne; exact hne rfl
-    simp [hik, hne]
+/-- `activate_control` of input `k`, whatever the `set_control_active` methods do (return, raise before or after marking):
+the invariant survives; when it returned, exactly `k` is marked and named; nothing of another output changes -/
+theorem activate_ok (cfg : Cfg) (f : Faults) (k : Nat) (s : St) (h : AllSingle cfg.n cfg.nout cfg.outOf s.cb s.act) :
+    AllSingle cfg.n cfg.nout cfg.outOf (activate cfg f k s).cb (activate cfg f k s).act ∧
+    ((activate cfg f k s).ok = true → TakenOver cfg.n cfg.outOf (.byInput k) (activate cfg f k s).cb (activate cfg f k s).act) ∧
+    OthersUntouched cfg.n cfg.nout cfg.outOf (cfg.outOf k) s.cb (activate cfg f k s).cb s.act (activate cfg f k s).act := by
+  refine ⟨?_, fun hok => activate_taken cfg f k s hok,
+    ⟨fun o' _ hne => activate_frame_cb cfg f k s o' hne, fun i _ hne => activate_frame_act cfg f k s i hne⟩⟩
+  have hcb := deactivateAll_cb cfg f (some k) (inputsOf cfg (cfg.outOf k)) s
+  have hmono := deactivateAll_mono cfg f (some k) (inputsOf cfg (cfg.outOf k)) s
+  have hdone := deactivateAll_done cfg f (some k) (inputsOf cfg (cfg.outOf k)) s
+  simp only [activate]
+  generalize deactivateAll cfg f (some k) (inputsOf cfg (cfg.outOf k)) s = s1 at *
+  refine allSingle_of_named _ _ _ _ _ ?_
+  intro o ho i hi hio hai
+  by_cases hok1 : s1.ok = true
+  · simp only [hok1, Bool.not_true, Bool.false_eq_true, if_false] at hai ⊢
+    rw [setAct_cb, setCb_cb, hcb]
+    rw [setAct_act] at hai
+    by_cases hsame : cfg.outOf i = cfg.outOf k
+    · have hik : i = k := by
+        apply Classical.byContradiction
+        intro hik
+        simp only [hik, if_false, setCb_act] at hai
+        have := hdone hok1 i ((mem_inputsOf ..).2 ⟨hi, hsame⟩) (by intro e; exact hik (Option.some.inj e).symm)
+        rw [this] at hai; cases hai
+      subst hik
+      simp [← hio]
+    · have hik : ¬ i = k := by intro e; rw [e] at hsame; exact hsame rfl
+      simp only [hik, if_false, setCb_act] at hai
+      have hne : ¬ o = cfg.outOf k := by rw [← hio]; exact hsame
+      simp only [hne, if_false]
+      exact (h o ho).2 i hi hio (hmono i hai)
+  · have hfalse : s1.ok = false := by simpa using hok1
+    simp only [hfalse, Bool.not_false, if_true] at hai ⊢
+    rw [hcb]; exact (h o ho).2 i hi hio (hmono i hai)
 
-theorem selfControlled_ok (cfg : Cfg) (o0 : Nat) (s : St) (h : AllSingle cfg.n cfg.nout cfg.outOf s.cb s.act)
+/-- `self_controlled` of output `o0`, whatever the `set_control_active` methods do -/
+theorem selfControlled_ok (cfg : Cfg) (f : Faults) (o0 : Nat) (s : St) (h : AllSingle cfg.n cfg.nout cfg.outOf s.cb s.act)
     (ho0 : o0 < cfg.nout) :
-    AllSingle cfg.n cfg.nout cfg.outOf (selfControlled cfg o0 s).cb (selfControlled cfg o0 s).act ∧
-    TakenOver cfg.n cfg.outOf (.bySelf o0) (selfControlled cfg o0 s).cb (selfControlled cfg o0 s).act ∧
-    OthersUntouched cfg.n cfg.nout cfg.outOf o0 s.cb (selfControlled cfg o0 s).cb s.act (selfControlled cfg o0 s).act := by
-  have hoff : ∀ i, i < cfg.n → cfg.outOf i = o0 → (selfControlled cfg o0 s).act i = false := by
-    intro i hi hio
-    rw [selfControlled_act]
-    by_cases hc : s.cb o0 = none
-    · simp only [hc, ne_eq, not_true_eq_false, false_and, if_false]
+    AllSingle cfg.n cfg.nout cfg.outOf (selfControlled cfg f o0 s).cb (selfControlled cfg f o0 s).act ∧
+    ((selfControlled cfg f o0 s).ok = true →
+      TakenOver cfg.n cfg.outOf (.bySelf o0) (selfControlled cfg f o0 s).cb (selfControlled cfg f o0 s).act) ∧
+    OthersUntouched cfg.n cfg.nout cfg.outOf o0 s.cb (selfControlled cfg f o0 s).cb s.act (selfControlled cfg f o0 s).act := by
+  refine ⟨?_, ?_, ⟨fun o' _ hne => selfControlled_frame_cb cfg f o0 s o' hne,
+    fun i _ hne => selfControlled_frame_act cfg f o0 s i hne⟩⟩
+  · -- the invariant
+    unfold selfControlled
+    cases hc : s.cb o0 with
+    | none => exact h
+    | some c =>
+      simp only []
+      have hcb := deactivateAll_cb cfg f none (inputsOf cfg o0) s
+      have hmono := deactivateAll_mono cfg f none (inputsOf cfg o0) s
+      have hdone := deactivateAll_done cfg f none (inputsOf cfg o0) s
+      generalize deactivateAll cfg f none (inputsOf cfg o0) s = s1 at *
+      refine allSingle_of_named _ _ _ _ _ ?_
+      intro o ho i hi hio hai
+      by_cases hok1 : s1.ok = true
+      · simp only [hok1, Bool.not_true, Bool.false_eq_true, if_false, setCb_act] at hai ⊢
+        by_cases hoo : o = o0
+        · have := hdone hok1 i ((mem_inputsOf ..).2 ⟨hi, hio.trans hoo⟩) (by simp)
+          rw [this] at hai; cases hai
+        · rw [setCb_cb, hcb]; simp only [hoo, if_false]
+          exact (h o ho).2 i hi hio (hmono i hai)
+      · have hfalse : s1.ok = false := by simpa using hok1
+        simp only [hfalse, Bool.not_false, if_true] at hai ⊢
+        rw [hcb]; exact (h o ho).2 i hi hio (hmono i hai)
+  · -- taken over
+    intro hok
+    refine ⟨selfControlled_taken_cb cfg f o0 s hok, fun i hi hio => ?_⟩
+    unfold selfControlled at hok ⊢
+    cases hc : s.cb o0 with
+    | none =>
+      simp only []
       cases ha : s.act i with
       | false => rfl
       | true => have := (h o0 ho0).2 i hi hio ha; rw [hc] at this; cases this
-    · simp [hc, hi, hio]
-  refine ⟨allSingle_of_named _ _ _ _ _ ?_, ⟨?_, hoff⟩, ⟨?_, ?_⟩⟩
-  · intro o ho i hi hio hai
-    by_cases hoo : o = o0
-    · rw [hoff i hi (hio.trans hoo)] at hai; cases hai
-    · rw [selfControlled_cb]; simp only [hoo, if_false]
-      rw [selfControlled_act] at hai
-      have hne : ¬ cfg.outOf i = o0 := by rw [hio]; exact hoo
-      simp only [hne, and_false, if_false] at hai
-      exact (h o ho).2 i hi hio hai
-  · rw [selfControlled_cb]; simp
-  · intro o' _ hne
-    rw [selfControlled_cb]; simp [hne]
-  · intro i _ hne
-    rw [selfControlled_act]; simp [hne]
+    | some c =>
+      simp only [hc] at hok ⊢
+      have hdone := deactivateAll_done cfg f none (inputsOf cfg o0) s
+      generalize deactivateAll cfg f none (inputsOf cfg o0) s = s1 at *
+      by_cases hok1 : s1.ok = true
+      · simp only [hok1, Bool.not_true, Bool.false_eq_true, if_false, setCb_act]
+        exact hdone hok1 i ((mem_inputsOf ..).2 ⟨hi, hio⟩) (by simp)
+      · have hfalse : s1.ok = false := by simpa using hok1
+        simp [hfalse] at hok
 
-/-- one operation, from any state in which every output has at most one marked input and names it: the same holds
-afterwards; an operation that takes over control of an output leaves exactly the new controller marked among the
-inputs of that output, named by it — the previous one is switched off; and nothing of another output changes -/
-theorem control_step (cfg : Cfg) (s : St) (op : Op) (h : AllSingle cfg.n cfg.nout cfg.outOf s.cb s.act) :
+/-- one operation (with any outcomes of the `set_control_active` calls it makes), from any state in which every output has
+at most one marked input and names it: the same holds afterwards — also when the operation stopped half-way; an operation
+that takes over control of an output and returns leaves exactly the new controller marked among the inputs of that output,
+named by it — the previous one is switched off; and nothing of another output changes -/
+theorem control_step (cfg : Cfg) (s : St) (op : Op × Faults) (h : AllSingle cfg.n cfg.nout cfg.outOf s.cb s.act) :
     AllSingle cfg.n cfg.nout cfg.outOf (step1 cfg s op).cb (step1 cfg s op).act ∧
-    TakenOver cfg.n cfg.outOf (takeoverOf cfg s.act op) (step1 cfg s op).cb (step1 cfg s op).act ∧
-    OthersUntouched cfg.n cfg.nout cfg.outOf (targetOf cfg op) s.cb (step1 cfg s op).cb s.act (step1 cfg s op).act := by
-  have same : AllSingle cfg.n cfg.nout cfg.outOf s.cb s.act ∧ TakenOver cfg.n cfg.outOf .no s.cb s.act ∧
+    ((step1 cfg s op).ok = true → TakenOver cfg.n cfg.outOf (takeoverOf cfg s.act op.1) (step1 cfg s op).cb (step1 cfg s op).act) ∧
+    OthersUntouched cfg.n cfg.nout cfg.outOf (targetOf cfg op.1) s.cb (step1 cfg s op).cb s.act (step1 cfg s op).act := by
+  obtain ⟨op, f⟩ := op
+  have same : ∀ (P : Prop), AllSingle cfg.n cfg.nout cfg.outOf s.cb s.act ∧ (P → TakenOver cfg.n cfg.outOf .no s.cb s.act) ∧
       OthersUntouched cfg.n cfg.nout cfg.outOf (targetOf cfg op) s.cb s.cb s.act s.act :=
-    ⟨h, trivial, untouched_refl ..⟩
-  have hact : ∀ k, _ := fun k => activate_ok cfg k { s with evs := [], ok := true } h
-  have hself : ∀ o, o < cfg.nout → _ := fun o ho => selfControlled_ok cfg o { s with evs := [], ok := true } h ho
+    fun _ => ⟨h, fun _ => trivial, untouched_refl ..⟩
+  have hact : ∀ k, _ := fun k => activate_ok cfg f k { s with evs := [], ok := true } h
+  have hself : ∀ o, o < cfg.nout → _ := fun o ho => selfControlled_ok cfg f o { s with evs := [], ok := true } h ho
   cases op with
   | writeIn k guarded =>
     simp only [step1, step, takeoverOf, targetOf]
     by_cases hk : validIn cfg k = true
     · simp only [hk, if_true]
       by_cases hg : (guarded && s.act k) = true
-      · simp only [hg, if_true]; exact same
+      · simp only [hg, if_true]; exact same _
       · simp only [hg]; exact hact k
-    · simp only [hk]; exact same
+    · simp only [hk]; exact same _
   | writeOut o =>
     simp only [step1, step, takeoverOf, targetOf]
     by_cases ho : o < cfg.nout
     · simp only [ho, if_true]; exact hself o ho
-    · simp only [ho, if_false]; exact same
+    · simp only [ho, if_false]; exact same _
   | activate k =>
     simp only [step1, step, takeoverOf, targetOf]
     by_cases hk : validIn cfg k = true
     · simp only [hk, if_true]; exact hact k
-    · simp only [hk]; exact same
+    · simp only [hk]; exact same _
   | deactivate k =>
     simp only [step1, step, takeoverOf, targetOf]
     by_cases hk : validIn cfg k = true
     · simp only [hk, if_true]
-      refine ⟨allSingle_of_named _ _ _ _ _ ?_, trivial, ⟨fun _ _ _ => by simp, ?_⟩⟩
+      refine ⟨allSingle_of_named _ _ _ _ _ ?_, fun _ => trivial, ⟨fun _ _ _ => by simp, ?_⟩⟩
       · intro o ho i hi hio hai
-        rw [deactivate_act] at hai
         rw [deactivate_cb]
-        by_cases hik : i = k
-        · simp [hik] at hai
-        · simp only [hik, if_false] at hai; exact (h o ho).2 i hi hio hai
+        have hsa := deactivate_mono cfg f k _ i hai
+        exact (h o ho).2 i hi hio hsa
       · intro i _ hne
-        rw [deactivate_act]
-        have hik : ¬ i = k := by intro e; rw [e] at hne; exact hne rfl
-        simp [hik]
-    · simp only [hk]; exact same
+        have hik : i ≠ k := by intro e; rw [e] at hne; exact hne rfl
+        exact deactivate_frame cfg f k _ i hik
+    · simp only [hk]; exact same _
   | selfControlled o =>
     simp only [step1, step, takeoverOf, targetOf]
     by_cases ho : o < cfg.nout
     · simp only [ho, if_true]; exact hself o ho
-    · simp only [ho, if_false]; exact same
+    · simp only [ho, if_false]; exact same _
   | updateTarget o k =>
     simp only [step1, step, takeoverOf, targetOf]
-    split <;> exact same
+    split <;> exact same _
 
 theorem allSingle_init (cfg : Cfg) : AllSingle cfg.n cfg.nout cfg.outOf init.cb init.act :=
   allSingle_of_named _ _ _ _ _ (fun _ _ i _ _ hi => by simp [init] at hi)
 
 /-- after every history the invariant holds -/
-theorem control_exec (cfg : Cfg) (ops : List Op) : ∀ s, AllSingle cfg.n cfg.nout cfg.outOf s.cb s.act →
+theorem control_exec (cfg : Cfg) (ops : List (Op × Faults)) : ∀ s, AllSingle cfg.n cfg.nout cfg.outOf s.cb s.act →
     AllSingle cfg.n cfg.nout cfg.outOf (exec cfg s ops).cb (exec cfg s ops).act := by
   induction ops with
   | nil => intro s h; exact h
@@ -149,84 +178,90 @@ theorem control_exec (cfg : Cfg) (ops : List Op) : ∀ s, AllSingle cfg.n cfg.no
 
 /-- **single_controller** — for every wiring (any number of outputs, each with any number of inputs) and every history
 of client writes (to an input's target, to an output's target) and driver-side calls (`activate_control`,
-`deactivate_control`, `self_controlled`, `update_target`), at every quiescent point every output has at most one
-input marked as controlling and names exactly that one. -/
-theorem single_controller (cfg : Cfg) (ops : List Op) :
+`deactivate_control`, `self_controlled`, `update_target`), with ANY behaviour of the drivers' `set_control_active` methods
+during each of them (return, raise before the flag is changed, raise after it — e.g. the previous controller cannot be
+switched off while another one takes over): at every quiescent point — also after an operation that failed half-way —
+every output has at most one input marked as controlling and names exactly that one. -/
+theorem single_controller (cfg : Cfg) (ops : List (Op × Faults)) :
     ∀ s ∈ run cfg init ops, AllSingle cfg.n cfg.nout cfg.outOf s.cb s.act := by
   intro s hs
   obtain ⟨pre, op, post, _, rfl⟩ := mem_scan _ _ _ _ hs
   exact (control_step cfg _ op (control_exec cfg pre init (allSingle_init cfg))).1
 
 /-- **takeover_switches_off** — after every history, an operation by which input `k` (or an output itself) takes
-over control of an output leaves exactly `k` (nobody) marked among the inputs of that output and `k` (`self`) named by
-it: the previous controller is switched off. -/
-theorem takeover_switches_off (cfg : Cfg) (ops : List Op) (op : Op) :
-    TakenOver cfg.n cfg.outOf (takeoverOf cfg (exec cfg init ops).act op)
+over control of an output and which returns leaves exactly `k` (nobody) marked among the inputs of that output and `k`
+(`self`) named by it: the previous controller is switched off.  (An operation that did not return has not taken over: see
+`single_controller` for what holds then.) -/
+theorem takeover_switches_off (cfg : Cfg) (ops : List (Op × Faults)) (op : Op × Faults)
+    (hok : (exec cfg init (ops ++ [op])).ok = true) :
+    TakenOver cfg.n cfg.outOf (takeoverOf cfg (exec cfg init ops).act op.1)
       (exec cfg init (ops ++ [op])).cb (exec cfg init (ops ++ [op])).act := by
   have := (control_step cfg _ op (control_exec cfg ops init (allSingle_init cfg))).2.1
-  simpa [exec, List.foldl_append] using this
+  simp only [exec, List.foldl_append, List.foldl_cons, List.foldl_nil] at hok ⊢
+  exact this hok
 
 /-- **outputs_independent** — the frame condition: after every history, an operation on output `o` (a write to it or to
-one of its inputs, a call of one of their control methods) changes neither `controlled_by` of another output nor
-`control_active` of an input attached to another output. -/
-theorem outputs_independent (cfg : Cfg) (ops : List Op) (op : Op) :
-    OthersUntouched cfg.n cfg.nout cfg.outOf (targetOf cfg op) (exec cfg init ops).cb (exec cfg init (ops ++ [op])).cb
+one of its inputs, a call of one of their control methods), failed or not, changes neither `controlled_by` of another
+output nor `control_active` of an input attached to another output. -/
+theorem outputs_independent (cfg : Cfg) (ops : List (Op × Faults)) (op : Op × Faults) :
+    OthersUntouched cfg.n cfg.nout cfg.outOf (targetOf cfg op.1) (exec cfg init ops).cb (exec cfg init (ops ++ [op])).cb
       (exec cfg init ops).act (exec cfg init (ops ++ [op])).act := by
   have := (control_step cfg _ op (control_exec cfg ops init (allSingle_init cfg))).2.2
   simpa [exec, List.foldl_append] using this
 
 /-- the stronger reading for output `o` is preserved by every operation except a direct `deactivate_control` call on one
-of its inputs -/
-theorem names_active_step (cfg : Cfg) (s : St) (op : Op) (o : Nat)
-    (hop : ∀ k, op = .deactivate k → cfg.outOf k ≠ o)
+of its inputs and an operation on `o` that did not return -/
+theorem names_active_step (cfg : Cfg) (s : St) (op : Op × Faults) (o : Nat)
+    (hop : ∀ k, op.1 = .deactivate k → cfg.outOf k ≠ o)
+    (hok : targetOf cfg op.1 = o → (step1 cfg s op).ok = true)
     (hn : NamesActive cfg.n cfg.outOf o (s.cb o) s.act) :
     NamesActive cfg.n cfg.outOf o ((step1 cfg s op).cb o) (step1 cfg s op).act := by
-  have hact : ∀ k, validIn cfg k = true → NamesActive cfg.n cfg.outOf o
-      ((activate cfg k { s with evs := [], ok := true }).cb o) (activate cfg k { s with evs := [], ok := true }).act := by
-    intro k hk c hc
+  obtain ⟨op, f⟩ := op
+  have hact : ∀ k, validIn cfg k = true →
+      (cfg.outOf k = o → (activate cfg f k { s with evs := [], ok := true }).ok = true) → NamesActive cfg.n cfg.outOf o
+      ((activate cfg f k { s with evs := [], ok := true }).cb o) (activate cfg f k { s with evs := [], ok := true }).act := by
+    intro k hk hokk c hc
     have hkn : k < cfg.n := by simp [validIn] at hk; exact hk.1
-    rw [activate_cb] at hc
     by_cases ho : o = cfg.outOf k
-    · simp only [ho, if_true, Option.some.injEq] at hc
-      subst hc
-      exact ⟨hkn, ho.symm, by rw [activate_act]; simp⟩
-    · simp only [ho, if_false] at hc
+    · obtain ⟨h1, h2⟩ := activate_taken cfg f k _ (hokk ho.symm)
+      rw [ho, h1] at hc
+      have hck : k = c := Option.some.inj hc
+      subst hck
+      exact ⟨hkn, ho.symm, (h2 k hkn rfl).2 rfl⟩
+    · rw [activate_frame_cb cfg f k _ o ho] at hc
       obtain ⟨h1, h2, h3⟩ := hn c hc
       refine ⟨h1, h2, ?_⟩
-      rw [activate_act]
-      have hne : ¬ cfg.outOf c = cfg.outOf k := by rw [h2]; exact ho
-      have hck : ¬ c = k := by intro e; rw [e] at hne; exact hne rfl
-      simp [hck, hne, h3]
-  have hself : ∀ o0, NamesActive cfg.n cfg.outOf o
-      ((selfControlled cfg o0 { s with evs := [], ok := true }).cb o) (selfControlled cfg o0 { s with evs := [], ok := true }).act := by
-    intro o0 c hc
-    rw [selfControlled_cb] at hc
+      rw [activate_frame_act cfg f k _ c (by rw [h2]; exact ho)]
+      exact h3
+  have hself : ∀ o0, (o0 = o → (selfControlled cfg f o0 { s with evs := [], ok := true }).ok = true) →
+      NamesActive cfg.n cfg.outOf o
+      ((selfControlled cfg f o0 { s with evs := [], ok := true }).cb o) (selfControlled cfg f o0 { s with evs := [], ok := true }).act := by
+    intro o0 hok0 c hc
     by_cases ho : o = o0
-    · simp [ho] at hc
-    · simp only [ho, if_false] at hc
+    · rw [ho, selfControlled_taken_cb cfg f o0 _ (hok0 ho.symm)] at hc; cases hc
+    · rw [selfControlled_frame_cb cfg f o0 _ o ho] at hc
       obtain ⟨h1, h2, h3⟩ := hn c hc
       refine ⟨h1, h2, ?_⟩
-      rw [selfControlled_act]
-      have hne : ¬ cfg.outOf c = o0 := by rw [h2]; exact ho
-      simp [hne, h3]
+      rw [selfControlled_frame_act cfg f o0 _ c (by rw [h2]; exact ho)]
+      exact h3
   cases op with
   | writeIn k guarded =>
-    simp only [step1, step]
+    simp only [step1, step, targetOf] at hok ⊢
     by_cases hk : validIn cfg k = true
-    · simp only [hk, if_true]
+    · simp only [hk, if_true] at hok ⊢
       by_cases hg : (guarded && s.act k) = true
       · simp only [hg, if_true]; exact hn
-      · simp only [hg]; exact hact k hk
+      · simp only [hg] at hok ⊢; exact hact k hk hok
     · simp only [hk]; exact hn
   | writeOut o0 =>
-    simp only [step1, step]
-    split
-    · exact hself o0
-    · exact hn
+    simp only [step1, step, targetOf] at hok ⊢
+    by_cases ho0 : o0 < cfg.nout
+    · simp only [ho0, if_true] at hok ⊢; exact hself o0 hok
+    · simp only [ho0, if_false]; exact hn
   | activate k =>
-    simp only [step1, step]
+    simp only [step1, step, targetOf] at hok ⊢
     by_cases hk : validIn cfg k = true
-    · simp only [hk, if_true]; exact hact k hk
+    · simp only [hk, if_true] at hok ⊢; exact hact k hk hok
     · simp only [hk]; exact hn
   | deactivate k =>
     simp only [step1, step]
@@ -236,36 +271,42 @@ theorem names_active_step (cfg : Cfg) (s : St) (op : Op) (o : Nat)
       rw [deactivate_cb] at hc
       obtain ⟨h1, h2, h3⟩ := hn c hc
       refine ⟨h1, h2, ?_⟩
-      rw [deactivate_act]
-      have hck : ¬ c = k := by intro e; rw [e] at h2; exact hop k rfl h2
-      simp [hck, h3]
+      have hck : c ≠ k := by intro e; rw [e] at h2; exact hop k rfl h2
+      rw [deactivate_frame cfg f k _ c hck]
+      exact h3
     · simp only [hk]; exact hn
   | selfControlled o0 =>
-    simp only [step1, step]
-    split
-    · exact hself o0
-    · exact hn
+    simp only [step1, step, targetOf] at hok ⊢
+    by_cases ho0 : o0 < cfg.nout
+    · simp only [ho0, if_true] at hok ⊢; exact hself o0 hok
+    · simp only [ho0, if_false]; exact hn
   | updateTarget o0 k =>
     simp only [step1, step]
     split <;> exact hn
 
 /-- **controlled_by_names_active** — in every history without a direct `deactivate_control` call on an input of
-output `o`, that output names an input only while the input is marked as controlling (otherwise it names `self`) —
-whatever happens at the other outputs. -/
-theorem controlled_by_names_active (cfg : Cfg) (o : Nat) (ops : List Op)
-    (hops : ∀ op ∈ ops, ∀ k, op = .deactivate k → cfg.outOf k ≠ o) :
+output `o` and in which every operation on `o` returned (no `set_control_active` of its inputs failed), that output names
+an input only while the input is marked as controlling (otherwise it names `self`) — whatever happens at the other outputs,
+failures included. -/
+theorem controlled_by_names_active (cfg : Cfg) (o : Nat) (ops : List (Op × Faults))
+    (hops : ∀ op ∈ ops, ∀ k, op.1 = .deactivate k → cfg.outOf k ≠ o)
+    (hoks : ∀ pre op post, ops = pre ++ op :: post → targetOf cfg op.1 = o → (step1 cfg (exec cfg init pre) op).ok = true) :
     NamesActive cfg.n cfg.outOf o ((exec cfg init ops).cb o) (exec cfg init ops).act := by
-  have gen : ∀ (ops : List Op) (s : St), (∀ op ∈ ops, ∀ k, op = .deactivate k → cfg.outOf k ≠ o) →
+  have gen : ∀ (ops : List (Op × Faults)) (s : St), (∀ op ∈ ops, ∀ k, op.1 = .deactivate k → cfg.outOf k ≠ o) →
+      (∀ pre op post, ops = pre ++ op :: post → targetOf cfg op.1 = o → (step1 cfg (exec cfg s pre) op).ok = true) →
       NamesActive cfg.n cfg.outOf o (s.cb o) s.act →
       NamesActive cfg.n cfg.outOf o ((exec cfg s ops).cb o) (exec cfg s ops).act := by
     intro ops
     induction ops with
-    | nil => intro s _ hn; exact hn
+    | nil => intro s _ _ hn; exact hn
     | cons op ops ih =>
-      intro s hops hn
-      exact ih _ (fun o' ho' => hops o' (List.mem_cons_of_mem _ ho'))
-        (names_active_step cfg s op o (hops op List.mem_cons_self) hn)
-  exact gen ops init hops (by intro c hc; simp [init] at hc)
+      intro s hops hoks hn
+      refine ih _ (fun o' ho' => hops o' (List.mem_cons_of_mem _ ho')) ?_
+        (names_active_step cfg s op o (hops op List.mem_cons_self) (hoks [] op ops rfl) hn)
+      intro pre op' post he ht
+      have := hoks (op :: pre) op' post (by rw [he]; rfl) ht
+      simpa [exec] using this
+  exact gen ops init hops hoks (by intro c hc; simp [init] at hc)
 
 /-- two outputs: inputs 0 and 2 on output 0, input 1 on output 1 -/
 def cfg2 : Cfg := { n := 3, nout := 2, outOf := fun i => if i = 1 then 1 else 0 }
@@ -273,16 +314,41 @@ def cfg2 : Cfg := { n := 3, nout := 2, outOf := fun i => if i = 1 then 1 else 0 
 /-- the gap of the stronger reading: a direct `deactivate_control` call (as `frappy_psi/mercury.py: Loop.set_output`
 makes it) leaves the output naming an input that is not marked -/
 theorem names_active_fails_after_deactivate :
-    ¬ NamesActive cfg2.n cfg2.outOf 0 ((exec cfg2 init [.activate 2, .deactivate 2]).cb 0)
-      (exec cfg2 init [.activate 2, .deactivate 2]).act := by
+    ¬ NamesActive cfg2.n cfg2.outOf 0 ((exec cfg2 init (plain [.activate 2, .deactivate 2])).cb 0)
+      (exec cfg2 init (plain [.activate 2, .deactivate 2])).act := by
+  decide
+
+/-- … and so does a take-over in which the new controller could not be switched on (the output is renamed, nobody is
+marked): the stronger reading needs operations that return -/
+theorem names_active_fails_after_failed_activation :
+    ¬ NamesActive cfg2.n cfg2.outOf 0
+      ((exec cfg2 init [(.activate 2, fun i b => if i = 2 ∧ b = true then .failBefore else .ok)]).cb 0)
+      (exec cfg2 init [(.activate 2, fun i b => if i = 2 ∧ b = true then .failBefore else .ok)]).act := by
   decide
 
 /-- non-vacuity: hand-over on output 0 while input 1 keeps controlling output 1 -/
-example : (run cfg2 init [.writeIn 1 true, .writeIn 0 true, .writeIn 2 true, .updateTarget 0 1, .writeOut 0, .activate 0]).map
+example : (run cfg2 init (plain [.writeIn 1 true, .writeIn 0 true, .writeIn 2 true, .updateTarget 0 1, .writeOut 0, .activate 0])).map
     (fun s => ((List.range 2).map s.cb, (List.range 3).map s.act)) =
     [([none, some 1], [false, true, false]), ([some 0, some 1], [true, true, false]),
      ([some 2, some 1], [false, true, true]), ([some 2, some 1], [false, true, true]),
      ([none, some 1], [false, true, false]), ([some 0, some 1], [true, true, false])] := by decide
+
+/-- the previous controller (input 0) cannot be switched off -/
+def stuck0 : Faults := fun i b => if i = 0 ∧ b = false then .failBefore else .ok
+/-- the hardware of input 0 raises after the module was marked as not controlling -/
+def late0 : Faults := fun i b => if i = 0 ∧ b = false then .failAfter else .ok
+
+/-- non-vacuity, with faults: input 0 controls output 0; the take-over by input 2 fails because input 0 cannot be switched
+off — input 0 stays marked and named, input 2 is not marked; the same for a manual write to the output; a second take-over
+goes through.  With an input that raises after it was unmarked the output keeps naming it (nobody is marked), and the next
+manual write names `self`. -/
+example : (run cfg2 init [(.activate 0, noFaults), (.writeIn 2 false, stuck0), (.writeOut 0, stuck0), (.writeIn 2 false, noFaults),
+      (.activate 0, noFaults), (.writeOut 0, late0), (.writeOut 0, noFaults)]).map
+    (fun s => ((List.range 2).map s.cb, (List.range 3).map s.act, s.ok)) =
+    [([some 0, none], [true, false, false], true), ([some 0, none], [true, false, false], false),
+     ([some 0, none], [true, false, false], false), ([some 2, none], [false, false, true], true),
+     ([some 0, none], [true, false, false], true), ([some 0, none], [false, false, false], false),
+     ([none, none], [false, false, false], true)] := by decide
 
 /-- the monitor rejects two marked inputs of one output, an output naming the wrong one, and an operation on output 1
 that switched off the controller of output 0 (shared registry) -/
@@ -298,6 +364,14 @@ example : controlOkB 3 2 [0, 1, 0] {
 example : controlOkB 3 2 [0, 1, 0] {
     takeover := .byInput 1, target := some 1, strong := [true, true], cbB := [some 0, none],
     actB := [true, false, false], cb := [some 0, some 1], act := [true, true, false] } = true := by decide
+/-- … and a failed take-over by input 2 that left the output renamed while input 0 is still the one marked; the same
+record with the output still naming input 0 is accepted -/
+example : controlOkB 3 2 [0, 1, 0] {
+    takeover := .byInput 2, target := some 0, ok := false, strong := [false, true], cbB := [some 0, none],
+    actB := [true, false, false], cb := [some 2, none], act := [true, false, false] } = false := by decide
+example : controlOkB 3 2 [0, 1, 0] {
+    takeover := .byInput 2, target := some 0, ok := false, strong := [false, true], cbB := [some 0, none],
+    actB := [true, false, false], cb := [some 0, none], act := [true, false, false] } = true := by decide
 
 end control
 
@@ -473,6 +547,82 @@ example : (run { cfgB with omitUnch := true } (init cfgB) [
 
 /-- the monitor rejects what the pinned code did (member assigned, struct stale) -/
 example : membersAgreeB ["p", "i"] [("p", 7), ("i", 1)] [("p", 9), ("i", 1)] = false := by decide
+
+/-- what the monitor `MembersRecovered` is given for one operation of the model -/
+def sinfoOf (s : St) : SInfo :=
+  { ok := s.ok, announced := s.evs.any (fun e => match e with | .struct _ => true | _ => false), flagged := s.mP }
+
+/-- **struct_update_recovers_members** — error states: for every layout, from ANY state (whatever members are in error
+state, whatever the struct and the members hold), every operation (`read`/`change` of the struct or of a member, driver-side
+assignment of either) with any oracle outcomes, with and without omission of unchanged updates: when the operation returned
+and a value of the struct parameter was announced during it, no member is in error state (or never announced) afterwards —
+a member that failed before is repaired together with the struct, whether or not its value differs from the one propagated
+last.  (`struct_update_recovers_members_overlapped`: the same for accesses that overlap with assignments of other threads.) -/
+theorem struct_update_recovers_members (cfg : Cfg) (s : St) (op : Op) :
+    MembersRecovered cfg.members (sinfoOf (step1 cfg s op)) := by
+  intro hok hann m hm
+  have hq : Q cfg { s with evs := [], exc := none } := by
+    intro he; obtain ⟨d, hd⟩ := he; cases hd
+  have := q_step cfg _ op hq hok
+  refine this ?_ m hm
+  simp only [sinfoOf, List.any_eq_true] at hann
+  obtain ⟨e, he, hs⟩ := hann
+  cases e with
+  | struct d => exact ⟨d, he⟩
+  | mem m x => simp at hs
+
+/-- … at every point of every history -/
+theorem struct_update_recovers_members_run (cfg : Cfg) (s0 : St) (ops : List Op) :
+    ∀ s ∈ run cfg s0 ops, MembersRecovered cfg.members (sinfoOf s) := by
+  intro s hs
+  obtain ⟨pre, op, post, _, rfl⟩ := mem_scan _ _ _ _ hs
+  exact struct_update_recovers_members cfg _ op
+
+/-- **struct_update_recovers_members_overlapped** — the same for histories in which accesses overlap with driver-side
+assignments of other threads (`OOp`: any `Overlap` / `iv`, any values seen by cache reads): an access that returned and during
+which a value of the struct was announced — by the access itself or by an assignment of another thread that fell into it —
+leaves no member in error state. -/
+theorem struct_update_recovers_members_overlapped (cfg : Cfg) (s : St) (op : OOp) :
+    MembersRecovered cfg.members (sinfoOf (ostep1 cfg s op)) := by
+  intro hok hann m hm
+  have hq : Q cfg { s with evs := [], exc := none } := by
+    intro he; obtain ⟨d, hd⟩ := he; cases hd
+  have := q_ostep cfg _ op hq hok
+  refine this ?_ m hm
+  simp only [sinfoOf, List.any_eq_true] at hann
+  obtain ⟨e, he, hs⟩ := hann
+  cases e with
+  | struct d => exact ⟨d, he⟩
+  | mem m x => simp at hs
+
+/-- non-vacuity (per-member layout): `read_i` fails — `i` is in error state, the struct is not; a member-wise read of the
+struct into which an assignment of another thread falls repairs it -/
+example : (orun cfgB (init cfgB) [
+      .seq (.readMember "i" (.fail .secop) (.fail .value)),
+      .readStructO (.fail .secop) (fun _ => .ok 5) { atEnd := [.assignMember "p" 9] }]).map
+        (fun s => (s.ok, s.sP, s.mP, (sinfoOf s).announced)) =
+    [(false, false, ["i"], false), (true, false, [], true)] := by decide
+
+/-- non-vacuity (combined layout, the situation of a client reading a member during a communication failure): the read of
+`i` fails — the struct and `i` are in error state; the next read of the struct delivers the values it had before: the struct is
+announced and `i` is announced again although its value is the old one; with omission of unchanged updates the members that
+were not in error state are left alone -/
+example : (run { cfgA with omitUnch := true } (init cfgA) [
+      .readStruct (.ok [("p", 1), ("i", 2), ("d", 3)]) (fun _ => .ok 0),
+      .readMember "i" (.fail .secop) (.ok 0),
+      .readStruct (.ok [("p", 1), ("i", 2), ("d", 3)]) (fun _ => .ok 0)]).map (fun s => (s.ok, s.sP, s.mP, s.evs)) =
+    [(true, false, [], [.mem "p" 1, .mem "i" 2, .mem "d" 3, .struct [("p", 1), ("i", 2), ("d", 3)]]),
+     (false, true, ["i"], []),
+     (true, false, [], [.mem "i" 2, .struct [("p", 1), ("i", 2), ("d", 3)]])] := by decide
+
+/-- the monitor rejects a record in which the struct was announced by an operation that returned while a member stays in
+error state, and accepts it when the operation failed or the struct was not announced -/
+example : structRecOkB ["p", "i"] ([("p", 1), ("i", 2)], [("p", 1), ("i", 2)],
+    { ok := true, announced := true, flagged := ["i"] }) = false := by decide
+example : structRecOkB ["p", "i"] ([("p", 1), ("i", 2)], [("p", 1), ("i", 2)],
+    { ok := true, announced := false, flagged := ["i"] }) = true := by decide
+example : structRecOkB ["p", "i"] ([("p", 1), ("i", 2)], [("p", 1), ("i", 2)],
+    { ok := false, announced := true, flagged := ["i"] }) = true := by decide
 
 end struct
 
@@ -681,10 +831,13 @@ theorem limits_step (cfg : LCfg) (s : LSt) (op : LOp) : LimitsOk cfg.layers (lre
   refine ⟨?_, ?_⟩
   · intro x hw hok happ
     cases op with
-    | write y c w =>
+    | write y c w cl =>
       simp only [lrecOf, Option.some.injEq] at hw
       subst hw
       simp only [lrecOf, lstep1, lstep, checkLimits_reset] at hok happ ⊢
+      by_cases hro : (cl && cfg.readonly) = true
+      · simp [hro, lfail] at hok
+      simp only [hro, Bool.false_eq_true, if_false] at hok ⊢
       by_cases hr : inRange cfg y = true
       · by_cases hc : (runChecks (checkLimits cfg s y) c cfg.layers 0).ok = true
         · have hlim : checkLimits cfg s y = true := by
@@ -729,7 +882,7 @@ theorem limits_step (cfg : LCfg) (s : LSt) (op : LOp) : LimitsOk cfg.layers (lre
         have : decide (a ≤ b) = false := by simp only [decide_eq_false_iff_not]; exact Int.not_le.mpr hba
         simp [this]
       simp [lrecOf, lstep1, lstep, hv, lfail, limitsOf]
-    | write y c w => simp [lrecOf] at hs
+    | write y c w cl => simp [lrecOf] at hs
     | writeMin y => simp [lrecOf] at hs
     | writeMax y => simp [lrecOf] at hs
     | driverAssign y => simp [lrecOf] at hs
@@ -755,9 +908,9 @@ theorem limits_enforced (cfg : LCfg) (v0 : Val) (e1 e2 e3 e4 : Bool) (pre : List
 its own, every accepted write is inside all limit parameters that exist (there is at least one), whatever the classes
 they are declared in. -/
 theorem limits_enforced_plain (cfg : LCfg) (v0 : Val) (e1 e2 e3 e4 : Bool) (pre : List LOp) (x : Val) (c : List CRes) (w : WRes Val)
-    (hown : ∀ l ∈ cfg.layers, l.ownCheck = false)
+    (cl : Bool) (hown : ∀ l ∈ cfg.layers, l.ownCheck = false)
     (hlim : (cfg.hasMin || cfg.hasMax || cfg.hasLimits) = true)
-    (hok : (lstep1 cfg (lexec cfg (linit cfg v0 e1 e2 e3 e4) pre) (.write x c w)).ok = true) :
+    (hok : (lstep1 cfg (lexec cfg (linit cfg v0 e1 e2 e3 e4) pre) (.write x c w cl)).ok = true) :
     Within (limitsOf cfg (lexec cfg (linit cfg v0 e1 e2 e3 e4) pre)) x := by
   have hnone : ∀ (layers : List Layer) (i : Nat) (lim : Bool), (∀ l ∈ layers, l.ownCheck = false) →
       (runChecks lim c layers i).stopAt = none := by
@@ -807,8 +960,8 @@ theorem limits_enforced_plain (cfg : LCfg) (v0 : Val) (e1 e2 e3 e4 : Bool) (pre 
             exact List.getElem_mem hb'
           have := (List.any_eq_false.1 hf) _ hm
           simpa using this
-  have happ : AutoApplies cfg.layers (lrecOf cfg (lexec cfg (linit cfg v0 e1 e2 e3 e4) pre) (.write x c w)).stopAt := by
-    have hst : (lrecOf cfg (lexec cfg (linit cfg v0 e1 e2 e3 e4) pre) (.write x c w)).stopAt = none := hnone _ _ _ hown
+  have happ : AutoApplies cfg.layers (lrecOf cfg (lexec cfg (linit cfg v0 e1 e2 e3 e4) pre) (.write x c w cl)).stopAt := by
+    have hst : (lrecOf cfg (lexec cfg (linit cfg v0 e1 e2 e3 e4) pre) (.write x c w cl)).stopAt = none := hnone _ _ _ hown
     rw [hst]
     have hownAt : ∀ a, (cfg.layers.getD a default).ownCheck = false := by
       intro a
@@ -826,7 +979,7 @@ theorem limits_enforced_plain (cfg : LCfg) (v0 : Val) (e1 e2 e3 e4 : Bool) (pre 
       exact ⟨a, ha, ⟨hownAt a, Or.inr (Or.inl hf)⟩, fun j hj => by cases hj⟩
     · obtain ⟨a, ha, hf⟩ := hex (·.declLimits) cfg.layers hlim
       exact ⟨a, ha, ⟨hownAt a, Or.inr (Or.inr hf)⟩, fun j hj => by cases hj⟩
-  exact ((limits_step cfg _ (.write x c w)).1 x rfl hok happ).1
+  exact ((limits_step cfg _ (.write x c w cl)).1 x rfl hok happ).1
 
 /-- `_max` and `_limits` declared in a subclass of the class of `<p>` -/
 def lcfg : LCfg := { lo := 0, hi := 100, layers := [{ declMax := true, declLimits := true }, {}], hasW := false }
